@@ -70,7 +70,8 @@ def finding_key(r, ref_ops, cls=None):
     text = (r.get("err") or "") + " " + (r.get("err_root") or "")
     if nlj and cls in ("panic", "other_error") and any(m in text for m in NLJ_FALLBACK_MSGS):
         return "nlj-oom-fallback-reexecutes-left-child-with-repartition"
-    if nlj and cls == "wrong_result" and r.get("counters", {}).get("spill_writes", 0) > 0:
+    left_emitting = any(o.split(":")[0] == "NestedLoopJoinExec" and o.split(":")[-1] in ("Left", "LeftSemi", "LeftAnti", "LeftMark", "Full") for o in ref_ops)
+    if left_emitting and cls == "wrong_result" and (r.get("counters") or {}).get("spill_writes", 0) > 0:
         return "nlj-memory-limited-fallback-left-emitting-join-multi-partition"
     if r.get("outcome") == "err" and "ran out of memory with no aggregated groups" in (r.get("err_root") or "") \
             and any(o.startswith("AggregateExec:Single") for o in ref_ops):
@@ -104,7 +105,7 @@ def judge(it, r, ref, meta):
                 msg = "right bag but a different row order than the unlimited run (total ORDER BY)"
         if msg:
             return "wrong result under a memory limit: " + msg, "wrong_result"
-        return (rel and "after the finished query: " + rel), ("exact_spilled" if r["counters"]["spill_writes"] else "exact")
+        return (rel and "after the finished query: " + rel), ("exact_spilled" if (r.get("counters") or {}).get("spill_writes") else "exact")
     return f"unexpected outcome {oc}", "tool"
 
 
@@ -114,7 +115,7 @@ def run(ctx):
         return replay(ctx)
     quick = ctx.quick
     mc_shapes = [s for s in vlife.pick_mc_shapes(ctx, extra=["sort", "spm"])]
-    cases, mstats = vlife.stream_tree_cases(ctx, "mem", 2, mc_shapes, workers=4 if quick else 8)
+    cases, mbg = vlife.stream_tree_cases(ctx, "mem", 2, mc_shapes, workers=4 if quick else 8)
     model_limit_cases = len(cases)
     datasets = {}
     lims = limits(ctx)
@@ -144,8 +145,9 @@ def run(ctx):
     gens = [(2, 1, ctx.seed + 70, feats), (2, 1, ctx.seed + 170, ["join", "agg", "sort", "distinct"])] if quick else \
            [(2, 1, ctx.seed + 70, feats), (3, 1, ctx.seed + 170, feats), (2, 2, ctx.seed + 270, None)]
     sqlc, pg_states = [], 0
-    for gi, (d, ed, sd, fs) in enumerate(gens):
-        cs, gr = sqlcases.generate(ctx, nq // len(gens), sd, depth=d, edepth=ed, maxrows=6, features=fs, tag=f"plangen{gi}", workers=4)
+    gen_out = vlife.parallel([(lambda gi=gi, d=d, ed=ed, sd=sd, fs=fs: sqlcases.generate(
+        ctx, nq // len(gens), sd, depth=d, edepth=ed, maxrows=6, features=fs, tag=f"plangen{gi}", workers=2)) for gi, (d, ed, sd, fs) in enumerate(gens)])
+    for gi, (cs, gr) in enumerate(gen_out):
         pg_states += gr.distinct
         for c in cs:
             c["id"] = f"q{gi}-{c['id']}"
@@ -163,7 +165,7 @@ def run(ctx):
             metas[it["id"]] = dict(case=c, sqlref=f"sqlref:{c['id']}")
             n += 1
 
-    res = vlife.run_items(ctx, refs + items, datasets, "mem", procs=4 if quick else 6, hang_secs=90, timeout=6000)
+    res = vlife.run_items(ctx, refs + items, datasets, "mem", procs=6, hang_secs=90, budget=600 if quick else 6000)
     for sh in BIG:
         if res[f"ref:{sh}"]["outcome"] != "ok":
             raise ToolError(f"unlimited run of shape {sh} failed: {res[f'ref:{sh}'].get('err')}")
@@ -210,6 +212,7 @@ def run(ctx):
         raise ToolError("unexpected harness outcome")
     if classes["exact_spilled"] < 5 or classes["resources_exhausted"] < 5:
         raise ToolError(f"vacuity: too few spilling / exhausted runs: {dict(classes)}")
+    mstats = mbg.join()
     write_evidence(ctx, "exploration", {
         "evaluations": evaluations, "distinct_nontrivial": len(nontrivial),
         "rule": "case = <query, memory limit, pool kind, spill compression, max spill file size, merge fan-in, sort spill reservation, runtime flavour>; queries are "
